@@ -26,7 +26,9 @@ RULE = ('A transport provider hands out successive SimNet transports, each attac
         'at period P; both probes are answered with their scripted payloads; a structural summary of the client object '
         '(every instance attribute: scalars by value, containers by size, tasks / futures / events by state, the stream '
         'table, queues, lease objects and reassembly cache one level down) taken after a reconnect and before new traffic '
-        'equals the one taken right after the first connect. Non-trivial = a reconnect caused by a '
+        'equals the one taken right after the first connect. In a fifth of the histories a reconnect is requested once or '
+        'twice while the very first connect() is still waiting for its transport\'s handshake (the first connection has to '
+        'come up as usual, with one SETUP). Non-trivial = a reconnect caused by a '
         'keepalive timeout or with requests pending, or >= 2 consecutive reconnects; distinct = case hash.')
 ASSUMPTIONS = ['a silent server is modelled by a link that drops everything written from a given moment on',
                'virtual clock for keepalive timing']
@@ -75,8 +77,14 @@ def cases(draw):
             e['server_partial'] = False
         if e['server_partial'] == 'element' and 'ch' not in e['pending']:
             e['pending'] = e['pending'] + ['ch']
-    return {'mode': mode, 'endings': endings, 'P_ms': P, 'L_ms': L, 'msg': draw(st.booleans()),
+    case = {'mode': mode, 'endings': endings, 'P_ms': P, 'L_ms': L, 'msg': draw(st.booleans()),
             'frag': frag, 'lease': lease}
+    if not lease and draw(st.integers(0, 4)) == 0:
+        # somebody (a supervisor, a network-change hook) asks for a reconnect while the very first connect() is still waiting for
+        # its transport's handshake: there is nothing to reconnect yet, the first connection has to come up as usual
+        case['early_reconnect'] = {'connect_ticks': draw(st.sampled_from([2, 3, 5])), 'at': draw(st.sampled_from([0, 1, 2])),
+                                   'times': draw(st.sampled_from([1, 1, 2]))}
+    return case
 
 
 def pending_spec(k):
@@ -107,6 +115,15 @@ def build(case):
         cfg['on_ka_timeout'] = 'reconnect'
     inter = []
     ops = [['tick', 3], ['settle'], ['snap', 'c', 'fresh']]
+    er = case.get('early_reconnect')
+    if er:
+        cfg['connect_async'] = True
+        # (the handshake outlasts all the early requests: a request after the first connect has finished is an ordinary reconnect)
+        cfg['connect'][0] = ['ticks', er['connect_ticks'] + er['at'] + 2 * er.get('times', 1) + 2]
+        pre = [['tick', er['at']]] if er['at'] else []
+        for _ in range(er.get('times', 1)):
+            pre += [['reconnect'], ['tick', 1]]
+        ops = pre + [['await_connect']] + ops
     GRANT = ['lease', 100000, 100000000]
     if case.get('lease'):
         cfg['lease'] = {'queue': 0}
@@ -197,7 +214,11 @@ def build(case):
 
 def judge(case):
     prog, plan = build(case)
-    tr = run_program(prog)
+    try:
+        tr = run_program(prog, timeout=20 if case.get('early_reconnect') else None)
+    except common.CaseTimeout:
+        return [viol('reconnect_does_not_terminate', 'C17:stuck', mode=case['mode'], early_reconnect=case.get('early_reconnect'))], \
+            True, ['mode=' + case['mode'], 'stuck']
     out = []
     log = tr.world.log
     P = case['P_ms'] / 1000.0
@@ -315,7 +336,8 @@ def judge(case):
     for err in tr.loop_errors:
         out.append(viol('unhandled_exception', 'C17:loop_error:%s' % err.get('type'), **err))
     nt = any(e['kind'] == 'ka_timeout' or e['pending'] for e in case['endings']) or len(case['endings']) >= 2
-    classes = ['mode=' + case['mode'], 'reconnects=%d' % len(case['endings'])] + \
+    classes = ['mode=' + case['mode'], 'reconnects=%d' % len(case['endings']),
+               'reconnect_requested_during_first_connect=%s' % bool(case.get('early_reconnect'))] + \
         sorted(set('ending=' + e['kind'] for e in case['endings']))
     return out, nt, classes
 
